@@ -36,6 +36,8 @@ type pairMon struct {
 	kp string
 
 	projCache map[string][]string
+	// look answers reference filters when projecting (nil: none declared)
+	look model.RefLookup
 }
 
 func newPairMon(c *vk.Case, env *scen.Env, src, ig string) *pairMon {
@@ -198,7 +200,7 @@ func (pm *pairMon) projectVersions(hashes []string) []model.Row {
 		if b == nil {
 			continue
 		}
-		rows = append(rows, model.ProjectBlock(pm.decl, pm.src.Name, pm.src.ChainID, b, nil)...)
+		rows = append(rows, model.ProjectBlock(pm.decl, pm.src.Name, pm.src.ChainID, b, pm.look)...)
 	}
 	return rows
 }
@@ -487,7 +489,7 @@ func (pm *pairMon) quiescenceVerdict(upto uint64, plan string, detail map[string
 	var want []model.Row
 	for n := pm.first; n <= upto && n <= last.num; n++ {
 		if b := chain.At(n); b != nil {
-			want = append(want, model.ProjectBlock(pm.decl, pm.src.Name, pm.src.ChainID, b, nil)...)
+			want = append(want, model.ProjectBlock(pm.decl, pm.src.Name, pm.src.ChainID, b, pm.look)...)
 		}
 	}
 	// rows below the first written block or above the position must not exist
